@@ -69,17 +69,20 @@ func trimValue(value []byte, tailLength int) ([]byte, error) {
 // SaveKeyValue stores in dirtyData the data keys "touched"
 // It does not care if the data is really dirty as calling this check here will be sub-optimal
 func (tdaw *TrackableDataTrie) SaveKeyValue(key []byte, value []byte) error {
-	var identifier []byte
 	lenValue := uint64(len(value))
 	if lenValue > core.MaxLeafSize {
 		return data.ErrLeafSizeTooBig
 	}
 
+	// the stored slice must not share its backing array with the caller's buffers
+	valueWithIdentifier := make([]byte, 0, len(value)+len(key)+len(tdaw.identifier))
+	valueWithIdentifier = append(valueWithIdentifier, value...)
 	if lenValue != 0 {
-		identifier = append(key, tdaw.identifier...)
+		valueWithIdentifier = append(valueWithIdentifier, key...)
+		valueWithIdentifier = append(valueWithIdentifier, tdaw.identifier...)
 	}
 
-	tdaw.dirtyData[string(key)] = append(value, identifier...)
+	tdaw.dirtyData[string(key)] = valueWithIdentifier
 	return nil
 }
 
